@@ -261,6 +261,7 @@ class PublicSim(object):
         tps = None
         min_s = None
         nreq = 1
+        req0 = len(self.requests)
         try:
             if kind == "produce":
                 tps = rnd.choice([[("t0", 0)], [("t1", 0)], [("t0", 0), ("t0", 1)]])
@@ -303,6 +304,7 @@ class PublicSim(object):
         if tps is not None and not kind.startswith("offset_"):
             nreq = len({LEADER[tp] for tp in tps})
         call = Call(kind, d, nreq, self.expected_delay(min_s), tps)
+        call.req0 = req0
         self.calls.append(call)
         self.history.append((kind, tps))
         if tps is not None:
@@ -396,12 +398,17 @@ def scenario(seed, cfg):
     def settle_replies(call):
         """answer every unanswered request on the wire that belongs to this call's api; reply-first"""
         n = 0
-        for req in list(sim.requests):
+        for idx, req in enumerate(list(sim.requests)):
             if req[3] or call.outcome() != "pending":
                 continue
             before = set(sim.armed)
             turn = sim.reply_to(req)
             if turn is None:
+                continue
+            if idx < call.req0:
+                # a reply to a request of an earlier call that was given up: must change nothing
+                if turn["writes"] or turn["scheds"] or turn["cancels"]:
+                    sim.B("C11_late_reply_inert", "late reply to id %d produced %r" % (req[2], {k: v for k, v in turn.items() if v}))
                 continue
             n += 1
             sim.accept_all()
@@ -465,11 +472,12 @@ def scenario(seed, cfg):
             finish_check(call)
             continue
         if fate == "reply":
-            settle_replies(call)
-            if call.outcome() == "pending":
-                # a second round: an operation may have issued a follow-up request
+            rounds = 0
+            while call.outcome() == "pending" and rounds < 8:      # an operation may issue follow-up requests
+                rounds += 1
                 sim.accept_all()
-                settle_replies(call)
+                if not settle_replies(call):
+                    break
             if call.outcome() != "ok":
                 sim.B("C11_timer_released", "%s answered honestly: outcome %s" % (call.name, call.outcome()))
             finish_check(call)
